@@ -426,3 +426,10 @@ func init() {
 		return ret(e.buffers[k])
 	}
 }
+
+func init() {
+	// name validation (regexp) is library code outside the claims: names used by harnesses are valid
+	stubs["github.com/couchbase/sg-bucket.NewValidDataStoreName"] = func(e *Exec, th *Thread, c *CallCtx, a []Val) StubRes {
+		return ret(TupleV{&StructV{F: []Val{a[0], a[1]}}, nilIface})
+	}
+}
